@@ -123,7 +123,10 @@ pub fn check(c: &Poly, rec: &mut Rec) -> Result<(), Violation> {
   let f = |v: Violation| v.fact("depth", d as f64).fact("exact", c.exact as u8 as f64).fact("R", c.r).fact("convex", c.convex as u8 as f64).fact("n_vertices", c.verts.len() as f64).fact("abs_lat", c.lat_c.abs());
   let b = match catch(|| nested::polygon_coverage(d, &c.verts, c.exact)) {
     Ok(b) => b,
-    Err(p) => return Err(f(Violation::new("polygon_total", "panic", format!("polygon_coverage(depth {}, {:?}, exact={}) panicked: {}", d, c.verts, c.exact, p)))),
+    Err(p) => {
+      let spf = p.contains("special_points_finder.rs") && p.contains("assertion failed");
+      return Err(f(Violation::new("polygon_total", "panic", format!("polygon_coverage(depth {}, {:?}, exact={}) panicked: {}", d, c.verts, c.exact, p)).fact("chk", chk_fact()).fact("debug_assert_in_special_points_finder", spf as u8 as f64)));
+    }
   };
   let cells = bc::model_cells("polygon_wf", "polygon coverage", &b).map_err(|v| f(v))?;
   if b.get_depth_max() != d {
@@ -247,7 +250,8 @@ fn strat() -> BoxedStrategy<Poly> {
 }
 
 pub fn run(ctx: &Ctx, rep: &mut Report) {
-  ctx.run_random(rep, "polygons", strat, ctx.tier.pick(400_000, 20_000_000), check);
+  let f = if ctx.profile == "release" { 1 } else { 4 };
+  ctx.run_random(rep, "polygons", strat, ctx.tier.pick(400_000, 20_000_000) / f, check);
 }
 
 pub fn replay(ctx: &Ctx, rep: &mut Report, section: &str, case: &Value) -> Result<(), String> {
